@@ -12,6 +12,11 @@ def showPos : Option Nat → String
   | some p => toString p
   | none => "!"
 
+def showRes' : Res Nat → String
+  | .ok p => toString p
+  | .err => "e"
+  | .panic => "!"
+
 def showRes : Res (List Char) → String
   | .ok t => "ok " ++ hex t
   | .err => "err"
@@ -28,7 +33,7 @@ def lcall (t : List Char) : String :=
 def posall (t : List Char) (ml mc : Nat) : String :=
   let m := lineMap (stripCR t)
   let outs := (List.range (ml + 1)).flatMap (fun l =>
-    (List.range (mc + 1)).map (fun c => showPos (m.posForLineCol l c)))
+    (List.range (mc + 1)).map (fun c => showRes' (m.fromPos l c)))
   " ".intercalate outs
 
 def endcols (t : List Char) (ml : Nat) : String :=
